@@ -188,7 +188,7 @@ procedure store(vp, vc, vval)
       else { call tag(vp, vc); };
       \* the object may have been removed between the probe / publish above and the tagging:
       \* once the pid is tagged nobody else can remove it, so look again and store the data again
- st6b: if (result[self] = "ok") {
+ st6b: if (result[self] \in {"ok", "exists"}) {   \* (also after a rejected tagging: fix F12)
         vx := obj[vc] = "ok"; ev := Ev(self, "stat", P("obj", vc), NoPath, FN(vx));
         if (~vx) {
  st6c:    ev := Ev(self, "stat", P("obj", vc), NoPath, FN(obj[vc] = "ok"));   \* objects/<cid> unsharded
@@ -471,7 +471,7 @@ fair process (proc \in Thread) {
  fin: skip;
 }
 } *)
-\* BEGIN TRANSLATION (chksum(pcal) = "60636db3" /\ chksum(tla) = "f9f74a40")
+\* BEGIN TRANSLATION (chksum(pcal) = "9a173206" /\ chksum(tla) = "c504c685")
 \* Procedure variable va of procedure tag at line 97 col 13 changed to va_
 \* Procedure variable vb of procedure tag at line 97 col 25 changed to vb_
 \* Procedure variable vrl of procedure tag at line 97 col 77 changed to vrl_
@@ -1366,7 +1366,7 @@ st6(self) == /\ pc[self] = "st6"
                              vx_del, vp_delm, vp, vc_r, vrl, va, vb, vx >>
 
 st6b(self) == /\ pc[self] = "st6b"
-              /\ IF result[self] = "ok"
+              /\ IF result[self] \in {"ok", "exists"}
                     THEN /\ vx_' = [vx_ EXCEPT ![self] = obj[vc_s[self]] = "ok"]
                          /\ ev' = Ev(self, "stat", P("obj", vc_s[self]), NoPath, FN(vx_'[self]))
                          /\ IF ~vx_'[self]
